@@ -58,13 +58,6 @@ end
 /-- Fuel that suffices for a whole template (`writeTree`). -/
 def treeNeed (nodes : List Node) : Nat := needSeq nodes + 1
 
-/-- The fuel the driver runs a rendering with: the proved bound where the theorem applies (then no constant is
-    involved at all), the session's constant otherwise. -/
-def fuelFor (reg : Registry) (key : Bytes) (dflt : Nat) : Nat :=
-  match reg.lookup key with
-  | some nodes => if plainSeq nodes then treeNeed nodes else dflt
-  | none => dflt
-
 theorem need_mem : ∀ (l : List Node) (n : Node), n ∈ l → needNode n < needSeq l := by
   intro l
   induction l with
